@@ -246,7 +246,10 @@ impl SwiftField for Field56Intermediary {
                 let field = Field56D::parse(value)?;
                 Ok(Field56Intermediary::D(field))
             }
-            _ => {
+            Some(other) => Err(ParseError::InvalidFormat {
+                message: format!("Option {} is not supported by this field", other),
+            }),
+            None => {
                 // No variant specified, fall back to default parse behavior
                 Self::parse(value)
             }
@@ -307,7 +310,10 @@ impl SwiftField for Field56IntermediaryAD {
                 let field = Field56D::parse(value)?;
                 Ok(Field56IntermediaryAD::D(field))
             }
-            _ => {
+            Some(other) => Err(ParseError::InvalidFormat {
+                message: format!("Option {} is not supported by this field", other),
+            }),
+            None => {
                 // No variant specified, fall back to default parse behavior
                 Self::parse(value)
             }
